@@ -215,6 +215,21 @@ CHECKS['C01'] = dict(
     technique="Coq proof (wrapper state machine equals direct calls for all histories; pinned holder refuted) + execution-based differential check of the generated wrappers against the wrapped C++",
     ref="5/C01")
 
+CHECKS['C02'] = dict(
+    text="Proof (partial): the overload dispatcher of the python-native back-end (sort the overloads of one arity with RemapCompareLess over get_type_sort ranks, run the first whose "
+         "parameter extraction accepts the arguments) is modelled with the acceptance relation of the emitted checks (int types take int/bool, floating types take float/int/bool, strings "
+         "take str, a class parameter takes the class and its derived classes, bool takes anything). For EVERY class hierarchy in which a base ranks below its derived classes, every "
+         "overload list in that order and every argument tuple: if the set uses one C++ type per Python category and its members differ in category somewhere, a call whose arguments "
+         "correspond exactly to overload o runs o; the sort is proved to produce such an order (asymmetry and negative transitivity of the comparison); sets with two integer widths and bool "
+         "arguments are refuted by witnesses (recorded finding, confirmed on the built module). Correspondence/specification by EXECUTION: generated libraries are wrapped, compiled "
+         "into an extension module and imported in CPython: names and camelCase aliases, exact-category overload calls, derived instances for base parameters, defaults and keywords, "
+         "properties, sequences, operators, enums, integer boundaries of five widths (OverflowError beyond), TypeError with state unchanged, live-object counts for returned copies and "
+         "borrowed pointers, zero live objects at exit.",
+    note=TB + "the 9000-line generator is not modelled beyond the dispatch order and acceptance relation; no sanitizer inside the interpreter (memory errors show as crashes or wrong object "
+         "counts); built against harness/shims register_type.h and dconfig.h.",
+    technique="Coq proof (first-accepting dispatch over the sorted overload list selects the exactly matching overload; sort order lemma; refuting witnesses) + execution of the built extension module against expected outcomes and the extracted dispatcher",
+    ref="5/C02")
+
 PENDING = {
 }
 
